@@ -39,7 +39,7 @@ class CallMixin:
             if name in ("old", "implies", "result", "use", "hint", "iff", "fresh_ref", "subset", "union", "setminus", "mapdom",
                         "singleton", "setadd", "setdel", "mapset", "mapdel", "seqlen", "issub", "isinst", "typeof", "ite", "mapget",
                         "emptyset", "length", "inter", "exc_is", "some", "unopt", "isnone", "const", "cast", "elems", "distinct",
-                        "str_init", "str_last", "str_first", "has", "aslist", "inside", "confined", "rec_has", "rec_get", "rec_set", "log_count", "log_arg", "log_result", "module"):
+                        "str_init", "str_last", "str_first", "has", "aslist", "inside", "confined", "rec_has", "rec_get", "rec_set", "log_count", "log_arg", "log_result", "module", "lower"):
                 return Callable_("dslfn", name)
         mod = env.get("__mod__")
         if mod is not None:
@@ -259,6 +259,12 @@ class CallMixin:
         if isinstance(f, ast.Name) and st.env.get("__contract__") and f.id in ("old", "forall", "exists", "setof"):
             yield from self.dsl_special(f.id, node, st)
             return
+        if isinstance(f, ast.Attribute) and any(isinstance(a, (ast.GeneratorExp, ast.ListComp)) for a in node.args):
+            op = self.opaque_spec(f.attr, "?." + f.attr)
+            if op is not None and isinstance(op[0], Ty):
+                # text assembled from a comprehension and handed to an opaque callee: the argument is not evaluated
+                yield st, self.opaque_call(op[0], "?." + f.attr, [NONE], {}, st, node)
+                return
         if isinstance(f, ast.Attribute):
             if isinstance(f.value, ast.Call) and isinstance(f.value.func, ast.Name) and f.value.func.id == "super":
                 yield from self.call_super(node, st)
@@ -717,6 +723,10 @@ class CallMixin:
                     yield st, x.join(obj, st, self, node)
                 else:
                     raise Unsupported("join of %r" % (x,), node)
+            elif meth in ("lower", "upper", "strip") and not args:
+                f = z3.Function("str_" + meth, z3.StringSort(), z3.StringSort())
+                self.note_assumption("str.%s() is an uninterpreted function of the string" % meth)
+                yield st, mk_str(f(obj.t))
             elif meth == "encode" and isinstance(ty, TStr):
                 yield st, Val(Bytes, [self.utf8(obj.t, st)])
             else:
